@@ -248,6 +248,10 @@ func exponent(a, b interface{}) float64 {
 }
 
 func makeRange(min, max int) []int {
+	if max < min {
+		// Checked before the subtraction: for bounds more than MaxInt apart, max - min + 1 wraps around to a positive size.
+		return []int{}
+	}
 	size := max - min + 1
 	if size <= 0 {
 		return []int{}
